@@ -810,13 +810,13 @@ def run_model(model: str, tier: str, seed: int) -> Dict[str, Any]:
                                                     "next_obs_in_extras": b, "property": PID}))
             bump("specs_checked", 1)
 
-    budget = (6.0 if quick else 25.0) * (2.0 if heavy else 1.0)
+    n_eager_want = 1 if (quick or heavy) else 2  # fixed counts: nothing here may depend on the wall clock
     for b in (False, True):
         W = AutoResetWrapper(env, next_obs_in_extras=b)
         mon = AutoResetMonitor(env, bare, b, ctor, model)
         ex = Explorer(W, model, PID, keys=keys, actions=actions, monitors=[mon], max_depth=D, post_terminal=D + 1,
                       max_states=60_000 if quick else 400_000, max_transitions=600_000 if quick else 4_000_000,
-                      seed=seed, ctor=ctor, eager_max_paths=0, chunk_rows=(8 if heavy else 32) * nA, time_budget_s=70.0 if quick else 600.0)
+                      seed=seed, ctor=ctor, eager_max_paths=0, chunk_rows=(8 if heavy else 32) * nA)
         r = ex.run()
         # `depth>D` is the intended bound, not a cap on the enumeration
         bounded_ok = (r["cap"] is None) or str(r["cap"]).startswith("depth>")
@@ -856,7 +856,7 @@ def run_model(model: str, tier: str, seed: int) -> Dict[str, Any]:
             seeds = [keys[r_] for _, r_, _, _ in g]
             paths = [[np.asarray(actions[a]).tolist() for a in acts] for _, _, _, acts in g]
             eager_ref = None
-            if (n_eager == 0 and (b or not heavy)) or (time.time() - t0 < budget and not heavy):
+            if n_eager < n_eager_want and (b or not heavy):
                 p0 = paths[0][: (2 if heavy else len(paths[0]))]
                 sigs, traj = check_path(env, b, seeds[0], p0, eager=True)
                 n_eager += 1
@@ -906,7 +906,10 @@ def run_model(model: str, tier: str, seed: int) -> Dict[str, Any]:
 # entry points
 # ---------------------------------------------------------------------------------------------
 def models_for(tier: str) -> List[str]:
-    return [m for m, o in MODELS.items() if tier != "quick" or o.get("quick", True)]
+    import os
+
+    only = [m for m in os.environ.get("VERIF_MODELS", "").split(",") if m]  # development knob (subset => exit 2)
+    return [m for m, o in MODELS.items() if (m in only if only else (tier != "quick" or o.get("quick", True)))]
 
 
 def main(tier: str, seed: int) -> int:
